@@ -130,6 +130,10 @@ pub fn build_config(
         HyperKind::Dynamic => Box::new(get_dynamic_heuristic(core.clone(), environment.clone())),
         HyperKind::Static => Box::new(get_static_heuristic(core.clone(), environment.clone())),
     };
+    let heuristic: TargetHeuristic = match GENERATION_COUNTER.with(|c| c.borrow().clone()) {
+        Some(counter) => Box::new(CountGenerations { inner: heuristic, counter }),
+        None => heuristic,
+    };
     let heuristic: TargetHeuristic =
         if std::env::var("VERIF_TRACE_CONSERVATION").is_ok() { Box::new(TraceConservation { inner: heuristic, total: core.jobs.size() }) } else { heuristic };
     let builder = match cfg.population {
@@ -159,7 +163,8 @@ pub fn build_config(
                 .with_initial(4, 0.05, create_default_init_operators(core.clone(), environment.clone()))
         }
     };
-    let builder = builder.with_max_generations(Some(cfg.generations)).with_initial(cfg.init_size, 0.05, create_default_init_operators(core.clone(), environment.clone()));
+    let max_time = MAX_TIME.with(|c| *c.borrow());
+    let builder = builder.with_max_generations(if cfg.generations == usize::MAX { None } else { Some(cfg.generations) }).with_max_time(max_time).with_initial(cfg.init_size, 0.05, create_default_init_operators(core.clone(), environment.clone()));
     let builder = if init_solutions.is_empty() { builder } else { builder.with_init_solutions(init_solutions, None) };
     builder.build().map_err(|e| e.to_string())
 }
@@ -266,6 +271,46 @@ impl rosomaxa::hyper::HyperHeuristic for TraceConservation {
 }
 
 impl std::fmt::Display for TraceConservation {
+    fn fmt(&self, f: &mut std::fmt::Formatter<'_>) -> std::fmt::Result {
+        write!(f, "{}", self.inner)
+    }
+}
+
+
+thread_local! {
+    /// When set, the hyper-heuristic is wrapped and every evolution round (search call) is counted.
+    pub static GENERATION_COUNTER: std::cell::RefCell<Option<Arc<std::sync::atomic::AtomicU64>>> = const { std::cell::RefCell::new(None) };
+    /// Optional max-time (seconds) passed to the configuration builder.
+    pub static MAX_TIME: std::cell::RefCell<Option<usize>> = const { std::cell::RefCell::new(None) };
+}
+
+struct CountGenerations {
+    inner: TargetHeuristic,
+    counter: Arc<std::sync::atomic::AtomicU64>,
+}
+
+impl rosomaxa::hyper::HyperHeuristic for CountGenerations {
+    type Context = RefinementContext;
+    type Objective = vrp_core::models::GoalContext;
+    type Solution = vrp_core::construction::heuristics::InsertionContext;
+
+    fn search(&mut self, ctx: &Self::Context, solution: &Self::Solution) -> Vec<Self::Solution> {
+        self.counter.fetch_add(1, std::sync::atomic::Ordering::SeqCst);
+        self.inner.search(ctx, solution)
+    }
+    fn search_many(&mut self, ctx: &Self::Context, solutions: Vec<&Self::Solution>) -> Vec<Self::Solution> {
+        self.counter.fetch_add(1, std::sync::atomic::Ordering::SeqCst);
+        self.inner.search_many(ctx, solutions)
+    }
+    fn diversify(&self, ctx: &Self::Context, solution: &Self::Solution) -> Vec<Self::Solution> {
+        self.inner.diversify(ctx, solution)
+    }
+    fn diversify_many(&self, ctx: &Self::Context, solutions: Vec<&Self::Solution>) -> Vec<Self::Solution> {
+        self.inner.diversify_many(ctx, solutions)
+    }
+}
+
+impl std::fmt::Display for CountGenerations {
     fn fmt(&self, f: &mut std::fmt::Formatter<'_>) -> std::fmt::Result {
         write!(f, "{}", self.inner)
     }
